@@ -73,6 +73,10 @@ func genC10(c *Ctx) {
 		res, p := callBuiltIn(fn(op.sym), env, object.NewPanInt(a), bobj)
 		nt := a != 0 && (bnil || b != 0)
 		c.Em.Emit(Rec{Case: fmt.Sprintf("C10 %s %d %s", op.name, a, btok), Impl: canonNum(op.name, a, b, bnil, res, p), NT: nt, Tags: []string{op.name, tag, "direct"}})
+		if ri, ok := res.(*object.PanInt); ok && op.name == "mod" && p == "" && !bnil && b != 0 {
+			// the remainder the code returned, judged by the property's relation
+			c.Em.Emit(Rec{Case: fmt.Sprintf("C10 modrel %d %d %d", a, b, ri.Value), Impl: "ok", Src: fmt.Sprintf("(%d) %% (%d) gives %d", a, b, ri.Value), NT: nt, Tags: []string{"modrel", tag}})
+		}
 		if viaSrc && a != math.MinInt64 && b != math.MinInt64 && !bnil {
 			src := fmt.Sprintf("(%d) %s (%d)", a, op.sym, b)
 			if !c.Mine() {
